@@ -12,12 +12,12 @@ extern "C" int omp_get_max_threads(void) noexcept { return 1; }
 using mc::Run;
 
 struct Cn {
-    int states, transitions, nontrivial, point_q, iter_steps, range_q, inv_checks, index_checks, merges, deep_merges, max_depth, dedup_hits, initial_states, levels3;
+    int states, transitions, nontrivial, point_q, iter_steps, range_q, inv_checks, index_checks, merges, deep_merges, max_depth, dedup_hits, initial_states, levels3, capped_expl, min_full_depth_p1;
     explicit Cn(Run &r) {
         states = r.counter("distinct_canonical_states"); transitions = r.counter("transitions_executed"); nontrivial = r.counter("states_with_data_below_the_buffer");
         point_q = r.counter("point_queries_checked"); iter_steps = r.counter("iterator_steps_checked"); range_q = r.counter("range_queries_checked");
         inv_checks = r.counter("invariant_evaluations"); index_checks = r.counter("per_level_index_searches_checked"); merges = r.counter("transitions_that_merged_levels");
-        deep_merges = r.counter("transitions_merging_3plus_levels"); max_depth = r.counter("max_depth_reached"); dedup_hits = r.counter("transitions_into_already_seen_states");
+        deep_merges = r.counter("transitions_merging_3plus_levels"); max_depth = r.counter("max_depth_reached"); capped_expl = r.counter("explorations_stopped_by_state_cap"); min_full_depth_p1 = r.counter("shallowest_fully_completed_depth_of_a_capped_exploration_plus_1"); dedup_hits = r.counter("transitions_into_already_seen_states");
         initial_states = r.counter("initial_states"); levels3 = r.counter("states_with_3plus_nonempty_levels");
     }
 };
@@ -208,6 +208,11 @@ struct Explorer {
         else { d.erase(keys[op.key_idx]); m.erase(keys[op.key_idx]); }
     }
 
+    void note_cap(uint64_t full_depth) {   // an exploration stopped at its state cap after completing every history of length <= full_depth
+        run.sh->capped.fetch_or(2); run.add(cn.capped_expl);
+        auto &c = run.sh->counters[cn.min_full_depth_p1]; uint64_t cur = c.load();
+        while ((cur == 0 || cur > full_depth + 1) && !c.compare_exchange_weak(cur, full_depth + 1)) {}
+    }
     size_t nonempty_levels(const Dyn &d) const { size_t c = 0; for (auto &l : d.levels) c += !l.empty(); return c; }
 
     // BFS from one initial state up to depth D (or until max_states distinct states were expanded)
@@ -239,11 +244,11 @@ struct Explorer {
             seen.insert(canon(*s.obj)); run.add(cn.states);
             layer.push_back(std::move(s));
         }
-        bool sampled = false;
+        bool sampled = false, cap_noted = false;
         for (int depth = 1; depth <= D && !layer.empty(); ++depth) {
             std::vector<State> next;
             for (auto &st : layer) {
-                if (run.deadline_passed() || seen.size() >= max_states) { if (seen.size() >= max_states) run.sh->capped.store(1); break; }
+                if (run.deadline_passed() || seen.size() >= max_states) { if (seen.size() >= max_states && !cap_noted) { note_cap(uint64_t(depth - 1)); cap_noted = true; } break; }
                 for (auto &op : ops) {
                     State ns; ns.model = st.model; ns.hist = st.hist; ns.hist.push_back(op);
                     std::string cs = hist_str(istr, ns.hist);
@@ -271,7 +276,7 @@ struct Explorer {
             }
             for (auto &st : layer) delete st.obj;
             layer = std::move(next);
-            if (layer.size() > 500000) { run.sh->capped.store(1); for (size_t i = 500000; i < layer.size(); ++i) delete layer[i].obj; layer.resize(500000); }   // memory bound of one frontier
+            if (layer.size() > 500000) { if (!cap_noted && depth < D) { note_cap(uint64_t(depth)); cap_noted = true; } for (size_t i = 500000; i < layer.size(); ++i) delete layer[i].obj; layer.resize(500000); }   // memory bound of one frontier
             auto cur = run.sh->counters[cn.max_depth].load();
             while (cur < uint64_t(depth) && !run.sh->counters[cn.max_depth].compare_exchange_weak(cur, uint64_t(depth))) {}
         }
@@ -302,11 +307,11 @@ struct Explorer {
             seen_round.insert(canon(*s.obj)); seen_micro.insert(canon(*s.obj)); run.add(cn.states);
             layer.push_back(std::move(s));
         }
-        bool sampled = false;
+        bool sampled = false, cap_noted = false;
         for (int round = 1; round <= R && !layer.empty(); ++round) {
             std::vector<State> next;
             for (auto &st : layer) {
-                if (run.deadline_passed() || seen_micro.size() >= max_states) { if (seen_micro.size() >= max_states) run.sh->capped.store(1); break; }
+                if (run.deadline_passed() || seen_micro.size() >= max_states) { if (seen_micro.size() >= max_states && !cap_noted) { note_cap(uint64_t(round - 1) * m); cap_noted = true; } break; }
                 for (auto &mac : macros) {
                     State ns; ns.model = st.model; ns.hist = st.hist; ns.obj = new Dyn(*st.obj);
                     bool ok = true;
@@ -582,6 +587,8 @@ int main(int argc, char **argv) {
               (prop == 5 ? " (find, count, lower_bound for every alphabet key and its neighbours)" : prop == 6 ? " (iteration from begin() and from every lower_bound to end(), range() for every lo<=hi of the query alphabet, size(), empty())" : " (sortedness, capacities, empty levels beyond used_levels, per-level index built over exactly the level's keys and answering the search contract, emptied levels' indexes reset)") +
               ". Non-trivial: the state holds data in a level below the buffer.";
     ev.bounds = "depth " + std::to_string(thorough ? Dt : Dq) + " from empty (4 keys), depth-1 (5 keys), depth-2 from small bulk-loads, deep starts depth " + std::to_string(thorough ? 7 : 5) + "; " + std::to_string(tasks.size()) + " (type,config,initial state) explorations";
+    if (uint64_t nc = run.sh->counters[cn.capped_expl].load())
+        ev.bounds += "; " + std::to_string(nc) + " of them stopped at their state cap before the target depth (the shallowest of these had completed every history up to length " + std::to_string(run.sh->counters[cn.min_full_depth_p1].load() - 1) + " beyond its start state); the others ran to their target depth";
     ev.assumptions = {"equal canonical forms have equal futures: the per-level indexes are a function of the level contents (checked by C15) and vector capacities are unobservable",
                       "the reference model is std::map with the same operation applied", "private members read with -fno-access-control"};
     return run.finish(ev);
